@@ -237,6 +237,15 @@ def _w_check(args):
                        decisions="".join("T" if d else "F" for d in dec))
 
 
+def _worker_init():
+    """Pool workers inherit the check's SIGTERM/SIGINT handlers (scratch-dir cleanup + sys.exit).  With those, Pool.terminate()
+    at the end of a phase could leave a worker blocked on the task-queue lock and the parent waiting for it forever (seen twice
+    under heavy load).  Workers get the default disposition back, so terminate() simply kills them."""
+    import signal
+    signal.signal(signal.SIGTERM, signal.SIG_DFL)
+    signal.signal(signal.SIGINT, signal.SIG_IGN)
+
+
 def run_parallel(scenarios, jobs=8, log=None):
     """returns list of (scenario, results [ClaimResult], stats)"""
     global _SCEN
@@ -247,7 +256,7 @@ def run_parallel(scenarios, jobs=8, log=None):
         return out
     t0 = time.time()
     ctx = mp.get_context("fork")
-    with ctx.Pool(max(1, min(jobs, len(_SCEN)))) as pool:
+    with ctx.Pool(max(1, min(jobs, len(_SCEN))), initializer=_worker_init) as pool:
         enum = {}
         for i, r, err in pool.imap_unordered(_w_enum, range(len(_SCEN))):
             enum[i] = (r, err)
@@ -260,7 +269,7 @@ def run_parallel(scenarios, jobs=8, log=None):
                 tasks.append((i, d))
     prs = {i: [] for i in range(len(_SCEN))}
     if tasks:
-        with ctx.Pool(max(1, min(jobs, len(tasks)))) as pool:
+        with ctx.Pool(max(1, min(jobs, len(tasks))), initializer=_worker_init) as pool:
             for i, pr in pool.imap_unordered(_w_check, tasks, chunksize=1):
                 prs[i].append(pr)
     for i, sc in enumerate(_SCEN):
